@@ -150,6 +150,9 @@ func (o *Once) Do(f func()) {
 // map iteration is a controlled choice instead of a source of nondeterminism.
 var RangeOrder int32
 
+// RangeLess, if it holds a func(a, b interface{}) bool, orders the keys of Map.Range (overrides RangeOrder != 0).
+var RangeLess atomic.Value
+
 type Map struct {
 	m sync.Map
 }
@@ -200,6 +203,17 @@ func (m *Map) Range(f func(key, value interface{}) bool) {
 		all = append(all, kv{fmt.Sprint(k), k, v})
 		return true
 	})
+	if less, _ := RangeLess.Load().(func(a, b interface{}) bool); less != nil {
+		sort.SliceStable(all, func(i, j int) bool { return less(all[i].k, all[j].k) })
+		for _, e := range all {
+			if cur, ok := m.m.Load(e.k); !ok {
+				continue
+			} else if !f(e.k, cur) {
+				return
+			}
+		}
+		return
+	}
 	sort.Slice(all, func(i, j int) bool {
 		if ord == 1 {
 			return all[i].s < all[j].s
